@@ -244,7 +244,7 @@ pub fn def() -> PropDef {
                     "symmetric",
                     tier.pick(1_200, 40_000),
                     (0u8..11, 0u8..CHUNK_SIZES.len() as u8, any::<bool>(), payload_strategy(), proptest::option::weighted(0.25, (any::<u16>(), proptest::collection::vec(any::<u8>(), 0..300))), prop_oneof![1u32..1000, Just(u32::MAX - 3)], 1u32..100_000, 0u8..3)
-                        .prop_map(|(pm, chunk_size, client_sends, payload, generated, start_seq, request_id, big_keys)| Case { pm, chunk_size, client_sends, payload, generated, start_seq: start_seq.min(u32::MAX - 8), request_id, big_keys }),
+                        .prop_map(|(pm, chunk_size, client_sends, payload, generated, start_seq, request_id, big_keys)| Case { pm, chunk_size, client_sends, payload, generated, start_seq: start_seq.min(u32::MAX - 64), request_id, big_keys }),
                     symmetric,
                 ),
                 part(
